@@ -32,7 +32,7 @@ SYS_PROPS = ['C01', 'C02', 'C03', 'C06', 'C08', 'C10', 'C12', 'C15', 'C19', 'C20
 MC_CFGS = {
     'quick': ['BertE.q.cfg', 'BertE.nq.cfg', 'BertE.sk.cfg', 'BertE.qs.cfg', 'BertE.fq.cfg'],
     'thorough': ['BertE.q.t.cfg', 'BertE.nq.t.cfg', 'BertE.sk.t.cfg', 'BertE.qs.t.cfg', 'BertE.q3.t.cfg',
-                 'BertE.f.cfg', 'BertE.fp.cfg', 'BertE.wnq.cfg', 'BertE.wq.cfg'],
+                 'BertE.f.cfg', 'BertE.fp.cfg', 'BertE.fr.cfg', 'BertE.wnq.cfg', 'BertE.wq.cfg'],
 }
 SIM_CFGS = {
     'quick': [('BertE.sim.cfg', 16, 30), ('BertE.simsk.cfg', 12, 30), ('BertE.simnq.cfg', 8, 24),
@@ -308,7 +308,7 @@ def _sig(clause, o, rec):
 
 
 # design-level counterexamples that are known findings (deviation switch on = the code's behaviour)
-EXPECTED_LEADS = {'BertE.fp.cfg': 'C08_Foreign', 'BertE.wq.cfg': 'C12_Held'}
+EXPECTED_LEADS = {'BertE.fp.cfg': 'C08_Foreign', 'BertE.fr.cfg': 'C08_Foreign', 'BertE.wq.cfg': 'C12_Held'}
 
 # ----------------------------------------------------------------------------- per property
 CLAUSES = {p: p + '.' for p in SYS_PROPS}
